@@ -491,6 +491,8 @@ func (c *Ctx) trCall(x *ast.CallExpr) Val {
 		return bval(fmt.Sprintf("(forall ((%s Int)) %s)", bv, inner.boolT(args[1])))
 	case "emptyset":
 		return Val{tArrB, []string{"((as const (Array Int Bool)) false)"}}
+	case "zeroarr":
+		return Val{tArr, []string{"((as const (Array Int Int)) 0)"}}
 	case "payload":
 		v := c.tr(args[0])
 		return ival(v.C[1])
